@@ -64,9 +64,27 @@ def work_engine(task):
             if rnd.random() < 0.3:
                 b = rnd.randint(I64_MIN, U64_MAX)
             da, db = rnd.choice(doms), rnd.choice(doms)
+            kind = rnd.randint(0, 9)
+            twin = rnd.random() < 0.2
+            if twin:
+                # two numbers 2^64 apart have the same 64 bits (one is held as a signed, the other as an unsigned
+                # quantity): compared, mostly in one domain
+                kind = 9
+                a = rnd.choice([v for v in L if -(1 << 63) <= v < 0]) if rnd.random() < 0.8 else -rnd.randint(1, 1 << 63)
+                b = a + (1 << 64)
+                if rnd.random() < 0.5:
+                    a, b = b, a
+                if rnd.random() < 0.8:
+                    db = da
             sa, sb = rnd.randint(0, 2), rnd.randint(0, 2)
             ta, tb = render_int(a, da, sa), render_int(b, db, sb)
-            kind = rnd.randint(0, 9)
+            if twin and rnd.random() < 0.5:
+                # ... also where one of them is the result of arithmetic (held signed whenever it went through a negative)
+                k = rnd.choice([1, 2, 5, 1 << 32])
+                if a < 0 and a - k >= I64_MIN:
+                    ta = "%s %s add" % (render_int(a - k, da, sa), render_int(k, da, 0))
+                elif a >= 0 and b - k >= I64_MIN:
+                    tb = "%s %s add" % (render_int(b - k, db, sb), render_int(k, db, 0))
             nt = abs(a) >= 1 << 63 or abs(b) >= 1 << 63 or da != "dec" or db != "dec"
             if kind <= 6:
                 op = rnd.choice(["add", "sub", "mul", "div", "mod"])
@@ -122,6 +140,8 @@ def work_engine(task):
                 if holds != (truth == positive) or len(r["res"]) > 1 or r["stderr"]:
                     bad = "%s: expected %s" % (rel, "holds" if truth == positive else "does not hold")
                 ev.label("engine:comparison")
+                if twin:
+                    ev.label("engine:comparison-of-bit-pattern-twins")
             if bad:
                 ev.violations.append({"property": PID, "query": q, "reason": bad, "signature": "C08:e:" + q})
             elif nt and rnd.random() < 0.002:
@@ -229,7 +249,8 @@ def main(tier, seed):
     rcode = finish(PID, tier, seed, ev, RULE, t0, exhaustive=True,
                    assumptions=["__int128 / Python integers as the arithmetic oracle",
                                 "the lattice sub-space is enumerated completely (exhaustive=true refers to it); random and engine tiers are samples"],
-                   health={"lattice ran": "lattice_evaluations" in ev.extra, "rapidcheck ran": ev.extra.get("rapidcheck_cases", 0) > 0})
+                   health={"lattice ran": "lattice_evaluations" in ev.extra, "rapidcheck ran": ev.extra.get("rapidcheck_cases", 0) > 0,
+                           "comparisons of numbers 2^64 apart (same bits) through the engine": ev.labels.get("engine:comparison-of-bit-pattern-twins", 0) > 300})
     # Patch distinct_nontrivial to include the lattice tuples (measured by h_int).
     import json
     from ..harness import EVIDENCE_DIR
